@@ -31,6 +31,7 @@ def run(ctx: Ctx) -> None:
     tables.rule_config_domain(ctx, ATS, "AlternateTargetSolver.solve", "AlternateTargetSolverSetting", "lc_method")
     tables.rule_api_numpy(ctx, [RELABEL])
     rule_alignment(ctx)
+    rule_conversion_guard(ctx)
     rule_str_to_op(ctx)
     ctx.floor("flow.exactly-once", 4)
     ctx.floor("vocab.gates", 6)
@@ -41,11 +42,19 @@ def rule_alignment(ctx: Ctx) -> None:
     m = repo.module(ATS)
     fn = repo.anchor(ATS, "AlternateTargetSolver.solve")
     ctx.touch(m, fn)
-    loops = [n for n in ast.walk(fn) if isinstance(n, ast.For) and isinstance(n.target, ast.Name)
-             and isinstance(n.iter, ast.Name) and n.iter.id == "lc_graphs"]
+    loops = []
+    for n in ast.walk(fn):
+        if not isinstance(n, ast.For):
+            continue
+        if isinstance(n.target, ast.Name) and isinstance(n.iter, ast.Name) and n.iter.id == "lc_graphs":
+            loops.append((n, n.target.id))
+        elif (isinstance(n.iter, ast.Call) and call_name(n.iter) == "enumerate" and n.iter.args and norm(n.iter.args[0]) == "lc_graphs"
+              and isinstance(n.target, ast.Tuple) and len(n.target.elts) == 2 and isinstance(n.target.elts[1], ast.Name)
+              and any(isinstance(c, ast.Call) and call_attr(c) == "lc_check" for c in ast.walk(n))):
+            loops.append((n, n.target.elts[1].id))
     if len(loops) != 1:
         raise AnalysisError("solve(): the loop over lc_graphs was not found")
-    loop = loops[0]
+    loop, loop_var = loops[0]
     appended = {}
     for c in calls_in(loop):
         if call_attr(c) == "append" and isinstance(c.func.value, ast.Name) and c.func.value.id.startswith("lc_"):
@@ -88,7 +97,7 @@ def rule_alignment(ctx: Ctx) -> None:
                  f"the relabel map is not computed as get_relabel_map(self.target_graph, {iso}) inside the iso-graph loop",
                  func="AlternateTargetSolver.solve", construct="solve: relabel map arguments")
     # lc_check is asked about (lc_graph, iso_graph) of the same iterations
-    lv = norm(loop.target)
+    lv = loop_var
     for c in calls_in(loop):
         if call_attr(c) in ("lc_check", "state_converter_circuit"):
             if [norm(a) for a in c.args[:2]] == [lv, iso]:
@@ -96,6 +105,107 @@ def rule_alignment(ctx: Ctx) -> None:
             else:
                 ctx.fail("flow.exactly-once", m, c, f"`{short(c)}` does not convert this iteration's LC graph into this iteration's "
                                                      f"iso graph", func="AlternateTargetSolver.solve")
+
+
+def _adj_eq_polarity(test: ast.AST, a: str, b: str):
+    """+1 if `test` is true exactly when a.adj == b.adj, -1 if exactly when they differ, None otherwise"""
+    pol = 1
+    while isinstance(test, ast.UnaryOp) and isinstance(test.op, ast.Not):
+        test, pol = test.operand, -pol
+    if isinstance(test, ast.Compare) and len(test.ops) == 1 and isinstance(test.ops[0], (ast.Eq, ast.NotEq)):
+        sides = {norm(test.left), norm(test.comparators[0])}
+        if sides == {f"{a}.adj", f"{b}.adj"}:
+            return pol if isinstance(test.ops[0], ast.Eq) else -pol
+    if isinstance(test, ast.Call) and call_name(test) in ("np.array_equal", "nx.utils.graphs_equal") and len(test.args) == 2:
+        sides = {norm(x) for x in test.args}
+        if sides in ({f"{a}.adj", f"{b}.adj"}, {a, b}):
+            return pol
+    return None
+
+
+def _lc_result_names(loop):
+    out = set()
+    for s in ast.walk(loop):
+        if isinstance(s, ast.Assign) and isinstance(s.value, ast.Call) and call_attr(s.value) == "lc_check":
+            for t in ast.walk(s.targets[0]):
+                if isinstance(t, ast.Name):
+                    out.add(t.id)
+    return out
+
+
+def rule_conversion_guard(ctx: Ctx) -> None:
+    """conv.guard: inside the LC-graph loop the conversion gates may be left out only where the LC graph has been compared
+    with the iso graph and found identical; every other path converts with the gates lc_check returned for this pair."""
+    repo = ctx.repo
+    m = repo.module(ATS)
+    fn = repo.anchor(ATS, "AlternateTargetSolver.solve")
+    loop = lv = None
+    for n in ast.walk(fn):
+        if isinstance(n, ast.For) and any(isinstance(c, ast.Call) and call_attr(c) == "lc_check" for c in ast.walk(n)):
+            if isinstance(n.target, ast.Name):
+                loop, lv = n, n.target.id
+            elif isinstance(n.target, ast.Tuple) and isinstance(n.target.elts[-1], ast.Name):
+                loop, lv = n, n.target.elts[-1].id
+    if loop is None:
+        raise AnalysisError("solve(): the loop that calls lc_check was not found")
+    outer = [n for n in ast.walk(fn) if isinstance(n, ast.For) and n is not loop and any(x is loop for x in ast.walk(n))]
+    iso = norm(outer[0].target) if outer else None
+    if iso is None:
+        raise AnalysisError("solve(): outer iso-graph loop not found")
+    adds = [c for c in calls_in(loop) if call_attr(c) == "add" and isinstance(parent(c), ast.Expr) and isinstance(parent(parent(c)), ast.For)]
+    conv = None
+    for c in adds:
+        f = parent(parent(c))
+        if isinstance(f.iter, ast.Name):
+            conv = f.iter.id
+    if conv is None:
+        raise AnalysisError("solve(): the loop that adds the conversion gates to the circuit was not found")
+    n = 0
+    for a in ast.walk(loop):
+        if isinstance(a, ast.Assign) and len(a.targets) == 1 and norm(a.targets[0]) == conv:
+            n += 1
+            if isinstance(a.value, ast.List) and not a.value.elts:
+                # find the enclosing condition(s)
+                guarded = False
+                node = a
+                p = parent(node)
+                conds = []
+                while p is not None and p is not loop:
+                    if isinstance(p, ast.If):
+                        in_body = any(node is s for s in p.body)
+                        pol = _adj_eq_polarity(p.test, lv, iso)
+                        conds.append(short(p.test, 60))
+                        if pol is not None and ((pol == 1) == in_body):
+                            guarded = True
+                        # `if gates: ... else: conv = []` — nothing to convert with: equally harmless
+                        t, neg = p.test, False
+                        while isinstance(t, ast.UnaryOp) and isinstance(t.op, ast.Not):
+                            t, neg = t.operand, not neg
+                        if isinstance(t, ast.Name) and t.id in _lc_result_names(loop) and (neg == in_body):
+                            guarded = True
+                    node, p = p, parent(p)
+                if guarded:
+                    ctx.ok("conv.guard", m, a, what="no conversion only when the LC graph equals the iso graph")
+                else:
+                    ctx.fail("conv.guard", m, a,
+                             f"solve() leaves the conversion gates out (`{conv} = []`) under {conds or 'no condition'} without comparing "
+                             f"{lv}.adj with {iso}.adj: when that LC graph is not the iso graph itself the returned circuit generates the LC graph, "
+                             f"not the relabelled target", func="AlternateTargetSolver.solve", construct=f"solve: {conv} = [] not guarded by graph equality")
+            else:
+                srcs = {x.id for x in ast.walk(a.value) if isinstance(x, ast.Name)}
+                lc = [s for s in ast.walk(loop) if isinstance(s, ast.Assign) and isinstance(s.value, ast.Call) and call_attr(s.value) == "lc_check"]
+                lc_names = set()
+                for s in lc:
+                    for t in ast.walk(s.targets[0]):
+                        if isinstance(t, ast.Name):
+                            lc_names.add(t.id)
+                if srcs & lc_names:
+                    ctx.ok("conv.guard", m, a, what="conversion gates come from this pair's lc_check")
+                else:
+                    ctx.fail("conv.guard", m, a, f"`{short(a)}`: the conversion gates are not those lc_check returned for ({lv}, {iso})",
+                             func="AlternateTargetSolver.solve", construct=f"solve: {conv} not from lc_check")
+    if n == 0:
+        raise AnalysisError("solve(): no assignment of the conversion gate list found")
 
 
 def rule_str_to_op(ctx: Ctx) -> None:
@@ -128,6 +238,7 @@ def rule_str_to_op(ctx: Ctx) -> None:
 
 
 KNOCKOUTS = [
+    Knockout("conversion-skipped-by-index", ATS, sub_once("                if not lc_graph.adj == iso_graph.adj:", "                if lc_graphs.index(lc_graph) > 0:"), "conv.guard", "not guarded by graph equality"),
     Knockout("G11-conditional-append", ATS,
              sub_once("                lc_circ_list.append(circuit)\n", "                if success:\n                    lc_circ_list.append(circuit)\n"),
              "flow.exactly-once", "lc_circ_list"),
